@@ -16,6 +16,7 @@ out = {}
 locs = {}
 cmps = {}
 kargs = {}
+argb = {}
 for v in ('A', 'B', 'C', 'D'):
     prog = facts.load(None, v)
     for f in prog.funcs.values():
@@ -27,6 +28,10 @@ for v in ('A', 'B', 'C', 'D'):
             ka = generic.constant_args_profile(f)
             if ka:
                 kargs.setdefault(v, {}).setdefault(f.file, {})[f.name] = ka
+            ab = generic.argument_bindings(f, prog)
+            if ab:
+                ab['#params'] = [p['name'] for p in f.params]
+                argb.setdefault(v, {}).setdefault(f.file, {})[f.name] = ab
         names = locs.setdefault(f.file, {}).setdefault(f.name, set())
         names.update(p['name'] for p in f.params)
         for b, i, ev in f.events():
@@ -36,6 +41,7 @@ json.dump({k: {fn: sorted(ns) for fn, ns in sorted(v.items())} for k, v in sorte
           open(os.path.join(facts.VERIF, 'engine', 'baseline_locals.json'), 'w'), indent=0)
 json.dump(cmps, open(os.path.join(facts.VERIF, 'engine', 'baseline_comparisons.json'), 'w'), indent=0, sort_keys=True)
 json.dump(kargs, open(os.path.join(facts.VERIF, 'engine', 'baseline_constargs.json'), 'w'), indent=0, sort_keys=True)
+json.dump(argb, open(os.path.join(facts.VERIF, 'engine', 'baseline_argbind.json'), 'w'), indent=0, sort_keys=True)
 path = os.path.join(facts.VERIF, 'engine', 'baseline_functions.json')
 json.dump({k: sorted(v) for k, v in sorted(out.items())}, open(path, 'w'), indent=0)
 print('%d files, %d functions -> %s' % (len(out), sum(len(v) for v in out.values()), path))
